@@ -103,7 +103,7 @@ func (f *FuncVC) libCall(st *State, x *ssa.Call, args []*Val) (*Val, bool) {
 		t := "0"
 		for k := int64(0); k < n; k++ {
 			by := f.sc.define("by", "Int", sel(sel(h, b.Fs[0].T), arith("+", b.Fs[1].T, num(k))))
-			f.sc.assert(and(cmp("<=", "0", by), cmp("<=", by, "255")))
+			f.fact(st, and(cmp("<=", "0", by), cmp("<=", by, "255")))
 			t = arith("+", arith("*", t, "256"), by)
 		}
 		lo, hi, _ := intRangeOf(resTy)
@@ -136,7 +136,7 @@ func (f *FuncVC) libCall(st *State, x *ssa.Call, args []*Val) (*Val, bool) {
 		f.sc.declare(r, "Int")
 		p := f.pow2Term(st, &Val{T: r})
 		pm := f.pow2Term(st, &Val{T: arith("-", r, "1")})
-		f.sc.assert(and(cmp("<=", "0", r), cmp("<=", r, "64"), implies(eq(v.T, "0"), eq(r, "0")),
+		f.fact(st, and(cmp("<=", "0", r), cmp("<=", r, "64"), implies(eq(v.T, "0"), eq(r, "0")),
 			implies(cmp(">", v.T, "0"), and(cmp("<=", pm, v.T), cmp("<", v.T, p)))))
 		return &Val{K: KInt, Ty: resTy, T: r, Lo: big.NewInt(0), Hi: big.NewInt(64)}, true
 	}
@@ -163,7 +163,7 @@ func (f *FuncVC) libCall(st *State, x *ssa.Call, args []*Val) (*Val, bool) {
 					after = f.sc.nameConst("sorted", arraySort(1, sorts[i]), after)
 					q := f.sc.fresh("k")
 					lo, hi := sv.Fs[1].T, arith("+", sv.Fs[1].T, sv.Fs[2].T)
-					f.sc.assert(fmt.Sprintf("(forall ((%s Int)) (! (=> (and (<= %s %s) (< %s %s)) (and (<= %s (%s %s)) (< (%s %s) %s) (= (select %s %s) (select %s (%s %s))))) :pattern ((select %s %s))))",
+					f.fact(st, fmt.Sprintf("(forall ((%s Int)) (! (=> (and (<= %s %s) (< %s %s)) (and (<= %s (%s %s)) (< (%s %s) %s) (= (select %s %s) (select %s (%s %s))))) :pattern ((select %s %s))))",
 						q, lo, q, q, hi, lo, perm, q, perm, q, hi, after, q, before[i], perm, q, after, q))
 				}
 				return &Val{K: KTuple, Ty: resTy}, true
@@ -172,7 +172,7 @@ func (f *FuncVC) libCall(st *State, x *ssa.Call, args []*Val) (*Val, bool) {
 	case "sort.Search":
 		f.usedAssumed[name+": returns an index in [0,n]; the predicate closure is assumed free of side effects"] = true
 		r := f.freshTyped(st, resTy, "search")
-		f.sc.assert(and(cmp("<=", "0", r.T), cmp("<=", r.T, "(imax "+args[0].T+" 0)")))
+		f.fact(st, and(cmp("<=", "0", r.T), cmp("<=", r.T, "(imax "+args[0].T+" 0)")))
 		return r, true
 	case "(*bytes.Buffer).Bytes":
 		f.usedAssumed[name+": returns a slice of the buffer contents (contents not modelled)"] = true
@@ -180,7 +180,7 @@ func (f *FuncVC) libCall(st *State, x *ssa.Call, args []*Val) (*Val, bool) {
 	case "(*bytes.Buffer).Len":
 		f.usedAssumed[name+": pure"] = true
 		r := f.freshTyped(st, resTy, "buflen")
-		f.sc.assert(cmp(">=", r.T, "0"))
+		f.fact(st, cmp(">=", r.T, "0"))
 		return r, true
 	case "encoding/binary.Write":
 		// assumed: serialises into the writer argument; when that writer is a
@@ -201,8 +201,8 @@ func (f *FuncVC) libCall(st *State, x *ssa.Call, args []*Val) (*Val, bool) {
 		et := args[0].Ty.Underlying().(*types.Slice).Elem()
 		f.applyMod(st, resolvedMod{kind: "elems", heap: elemHeapPrefix(et), obj: args[0].Fs[0].T, off: args[0].Fs[1].T, ln: args[0].Fs[3].T, text: "slices.Insert argument"}, f.srcAt(x.Pos()))
 		r := f.freshTyped(st, resTy, "ins")
-		f.sc.assert(eq(r.Fs[2].T, arith("+", args[0].Fs[2].T, nv)))
-		f.sc.assert(or(eq(r.Fs[0].T, args[0].Fs[0].T), cmp(">=", r.Fs[0].T, st.wm)))
+		f.fact(st, eq(r.Fs[2].T, arith("+", args[0].Fs[2].T, nv)))
+		f.fact(st, or(eq(r.Fs[0].T, args[0].Fs[0].T), cmp(">=", r.Fs[0].T, st.wm)))
 		f.bumpWM(st)
 		return r, true
 	}
